@@ -309,6 +309,8 @@ Proof.
     unfold do_enabled. split; auto; repeat split; auto.
   - (* fevent *)
     unfold do_fevent. destruct (eff st t false); split; auto.
+  - (* eventq *)
+    unfold do_eventq. destruct (eff st t false); split; auto.
 Qed.
 
 Lemma run_single : forall h i0 st, single i0 st -> forallb no_setdef h = true -> own_default (trace st h) = true.
